@@ -22,7 +22,7 @@ def _show_input(hx):
 
 def sizes(tier):
     # (ntypes, ninputs)
-    return (260, 30) if tier == "quick" else (4000, 60)
+    return (220, 30) if tier == "quick" else (2500, 50)
 
 
 def differential(ctx, hb, mexe, pid, classify):
